@@ -282,9 +282,9 @@ def _grid_direction(chk):
             "B4 exact evaluation", th_validate)
 
 
-def _stepping_loop(chk, kind, canary=False):
+def _stepping_loop(chk, kind, canary=False, ham=False):
     import hiten.algorithms.integrators.rk as rk
-    qual = {"rk45": "_RK45._integrate_rk45", "dop853": "_DOP853._integrate_dop853"}[kind]
+    qual = {"rk45": "_RK45._integrate_rk45", "dop853": "_DOP853._integrate_dop853"}[kind] + ("_ham" if ham else "")
     fn_label = RK + ":" + qual
     H = {}
 
@@ -295,7 +295,7 @@ def _stepping_loop(chk, kind, canary=False):
         return {"t0<=t<=tf": z3.And(t >= zv(H["t0"]), t <= zv(H["tf"])),
                 "ts[-1]==t": zv(_last(ts)) == t,
                 "ys[-1]==y": _last(ys).t == v.y.t,
-                "dys[-1]==f(t,y)": _last(dys).t == H["f"].term(t, v.y.t),
+                "dys[-1]==f(t,y)": _last(dys).t == H["F"](t, v.y.t),
                 "list lengths consistent": z3.And(_len(ys) == n, _len(dys) == n, _len(Ks) == n - 1, n >= 1)}
 
     def inv_rec(ctx, v):
@@ -343,20 +343,33 @@ def _stepping_loop(chk, kind, canary=False):
         t0, tf = te[0], te[-1]
         y0 = ctx.vec("y0")
         mn, mx, rtol, atol = ctx.real("min_step"), ctx.real("max_step"), ctx.real("rtol"), ctx.real("atol")
-        H.update(f=f, t0=t0, tf=tf)
+        if ham:
+            fh = ctx.ufun("fh", ["vec"], "vec")
+            F = lambda tt, yy: fh.term(yy)
+            ns["_hamiltonian_rhs"] = lambda yy, j, c, n: fh(yy) if (j, c, n) == ("J", "CL", 3) else None
+        else:
+            F = lambda tt, yy: f.term(tt, yy)
+        H.update(F=F, t0=t0, tf=tf)
         # weakest precondition of the loop contract: ascending span, positive step bounds
         ctx.assume(z3.And(zv(t0) < zv(tf), zv(mn) > 0, zv(mn) <= zv(mx), zv(atol) > 0, zv(rtol) >= 0), silent=True)
 
-        def kernel(ff, t, y, h, *rest):
+        def kernel(*a):
+            if ham:
+                t, y, h = a[0:3]
+                okf = a[-3:] == ("J", "CL", 3)
+            else:
+                ff, t, y, h = a[0:4]
+                okf = ff is f
             yh = ctx.fresh("y_high", "vec")
             ctx.ghost["h_used"] = h
             ctx.ghost["y_high"] = yh
-            ctx.check("loop: kernel is called at the current node (t, y) = (ts[-1], ys[-1])", z3.BoolVal(ff is f))
+            ctx.check("loop: kernel is called at the current node (t, y) = (ts[-1], ys[-1])",
+                      z3.And(z3.BoolVal(bool(okf)), zv(t) == ctx.ghost["at_head"][0]))
             if kind == "rk45":
                 return yh, ctx.fresh("y_low", "vec"), ctx.fresh("err_vec", "vec"), "K"
             return yh, ctx.fresh("y_low", "vec"), ctx.fresh("err_vec", "vec"), ctx.fresh("err5", "vec"), \
                 ctx.fresh("err3", "vec"), "K"
-        ns["rk45_step_jit_kernel" if kind == "rk45" else "dop853_step_jit_kernel"] = kernel
+        ns[("rk45_step%s_jit_kernel" if kind == "rk45" else "dop853_step%s_jit_kernel") % ("_ham" if ham else "")] = kernel
         ns["_error_scale"] = lambda y, yh, r, a: ctx.fresh("scale", "vec")
         ns["_pi_accept_factor"] = lambda e, ep, o: _bf(ctx, "acc")
         ns["_pi_reject_factor"] = lambda e, o: _bf(ctx, "rej")
@@ -379,10 +392,12 @@ def _stepping_loop(chk, kind, canary=False):
             return r
         ns["_select_initial_step"], ns["_clamp_step"], ns["_adjust_step_to_endpoint"] = sel, clamp, adjust
         try:
+            head = () if ham else (f,)
+            tail = ("J", "CL", 3) if ham else ()
             if kind == "rk45":
-                fn(f, y0, te, "A", "B", "C", "E", "P", rtol, atol, mx, mn, 5)
+                fn(*head, y0, te, "A", "B", "C", "E", "P", rtol, atol, mx, mn, 5, *tail)
             else:
-                fn(f, y0, te, "A", "B", "C", "E5", "E3", "D", 16, 7, "AF", "CF", rtol, atol, mx, mn, 8)
+                fn(*head, y0, te, "A", "B", "C", "E5", "E3", "D", 16, 7, "AF", "CF", rtol, atol, mx, mn, 8, *tail)
         except symx.StopPath:
             raise
         except Exception as e:
